@@ -1044,7 +1044,16 @@ func (w *walker) rangeStmt(s *ast.RangeStmt) {
 	}
 	// a local array built from a literal ([...]T{a, b, c}): the loop runs once per element, in order
 	if tup, isTup := w.eval(rx).(vTuple); isTup && len(tup) >= 1 && len(tup) <= 16 {
-		if _, isArr := w.info().TypeOf(rx).Underlying().(*types.Array); isArr {
+		_, isArr := w.info().TypeOf(rx).Underlying().(*types.Array)
+		if _, isSl := w.info().TypeOf(rx).Underlying().(*types.Slice); isSl {
+			isArr = true
+			for _, el := range tup {
+				if _, isRec := el.(vStructLit); !isRec {
+					isArr = false
+				}
+			}
+		}
+		if isArr {
 			for i, el := range tup {
 				if s.Key != nil && !isBlank(s.Key) {
 					if id, ok := s.Key.(*ast.Ident); ok {
@@ -1325,6 +1334,18 @@ func (w *walker) eval(e ast.Expr) val {
 				p = b.P
 			case vStruct:
 				p = Path{Root: b.root}
+			case vStructLit:
+				// a field of a table entry bound to the loop variable
+				if idx := sel.Index(); len(idx) == 1 {
+					if st := derefStruct(sel.Recv()); st != nil {
+						for _, lf := range b.fields {
+							if lf.f == st.Field(idx[0]) {
+								return lf.v
+							}
+						}
+					}
+				}
+				return vOpaque{"field selection on an untracked value (" + types.ExprString(e) + ")"}
 			default:
 				return vOpaque{"field selection on an untracked value (" + types.ExprString(e) + ")"}
 			}
@@ -1376,8 +1397,58 @@ func (w *walker) eval(e ast.Expr) val {
 			}
 			return t
 		}
+		// a slice literal of table entries ([]struct{ptr *string; n int}{{&p.A, 6}, ...}): the entries in order; only a
+		// table of records is taken this way (a list of plain values stays what it was)
+		if sl, ok := info.TypeOf(e).Underlying().(*types.Slice); ok && len(e.Elts) >= 1 && len(e.Elts) <= 32 {
+			if _, isRec := sl.Elem().Underlying().(*types.Struct); isRec {
+				var t vTuple
+				for _, el := range e.Elts {
+					if _, isKV := el.(*ast.KeyValueExpr); isKV {
+						return vOpaque{"keyed slice literal"}
+					}
+					rec, isLit := w.eval(el).(vStructLit)
+					if !isLit {
+						return vOpaque{"composite literal " + types.ExprString(e.Type)}
+					}
+					t = append(t, rec)
+				}
+				return t
+			}
+		}
 		if _, ok := info.TypeOf(e).Underlying().(*types.Struct); ok && len(e.Elts) == 0 {
 			return vStruct{root: &Root{Name: "lit"}}
+		}
+		// a table entry in an encoder ({&p.A, 6}): field addresses and constants only, nothing is read or written by
+		// evaluating it
+		if st, ok := info.TypeOf(e).Underlying().(*types.Struct); ok && w.encode {
+			var lit vStructLit
+			for i, el := range e.Elts {
+				var fv *types.Var
+				valExpr := el
+				if kv, isKV := el.(*ast.KeyValueExpr); isKV {
+					if id, isID := kv.Key.(*ast.Ident); isID {
+						for k := 0; k < st.NumFields(); k++ {
+							if st.Field(k).Name() == id.Name {
+								fv = st.Field(k)
+							}
+						}
+					}
+					valExpr = kv.Value
+				} else if i < st.NumFields() {
+					fv = st.Field(i)
+				}
+				v := w.eval(valExpr)
+				switch v.(type) {
+				case vPath, vConst:
+				default:
+					fv = nil
+				}
+				if fv == nil {
+					return vOpaque{"composite literal " + types.ExprString(e.Type)}
+				}
+				lit.fields = append(lit.fields, litField{fv, v, valExpr})
+			}
+			return lit
 		}
 		// T{F: <value read>, G: conv(<value read>)}: the elements are evaluated in source order; storing the literal stores
 		// each element into its field
@@ -1958,6 +2029,21 @@ func (w *walker) constInt(e ast.Expr) (int, bool) {
 	if tv, ok := w.info().Types[e]; ok && tv.Value != nil {
 		if k, ok := constant.Int64Val(tv.Value); ok {
 			return int(k), true
+		}
+	}
+	// the width column of a table entry bound to the loop variable (field.n): a constant of the literal
+	if sel, isSel := ast.Unparen(e).(*ast.SelectorExpr); isSel {
+		if s, ok := w.info().Selections[sel]; ok && s.Kind() == types.FieldVal {
+			if _, isVar := sel.X.(*ast.Ident); !isVar {
+				return 0, false
+			}
+			if _, isRec := w.eval(sel.X).(vStructLit); isRec {
+				if k, isK := w.eval(sel).(vConst); isK && k.V != nil && k.V.Kind() == constant.Int {
+					if n, ok := constant.Int64Val(k.V); ok {
+						return int(n), true
+					}
+				}
+			}
 		}
 	}
 	return 0, false
